@@ -23,6 +23,21 @@ impl<'ast> Visitor<'ast> for ContainsHoistedDeclarationsVisitor {
         ControlFlow::Break(())
     }
 
+    fn visit_iterable_loop_initializer(
+        &mut self,
+        node: &'ast boa_ast::statement::iteration::IterableLoopInitializer,
+    ) -> ControlFlow<Self::BreakTy> {
+        // `for (var x of y)` declares `x` without a `VarDeclaration` node.
+        if matches!(
+            node,
+            boa_ast::statement::iteration::IterableLoopInitializer::Var(_)
+        ) {
+            self.found = true;
+            return ControlFlow::Break(());
+        }
+        node.visit_with(self)
+    }
+
     fn visit_function_declaration(
         &mut self,
         _: &'ast boa_ast::function::FunctionDeclaration,
